@@ -165,12 +165,26 @@ fn check_qs(c: &QsCase, ctx: &mut CaseCtx) -> Result<(), Failure> {
         .collect();
     let pts: Vec<Fr> = c.points.iter().map(|p| p.to_f()).collect();
     let mut qs: QuerySet<Fr> = BTreeSet::new();
-    // one point per point label (documented precondition): the label index fixes the point
+    // Usually one point per point label (what the batching code assumes): the label index fixes the point.
+    // One case in four lets a label be reused for different points - the property speaks of every queried
+    // (label, point) pair, and evaluate_query_set itself does not look at point labels.
+    let reuse = c.queries.len() >= 2 && (c.queries[0].0 as usize + c.queries[0].2 as usize) % 4 == 0;
     let mut label_point: BTreeMap<u8, usize> = BTreeMap::new();
+    let mut reused = false;
     for (p, l, z) in &c.queries {
-        let zi = *label_point.entry(*l).or_insert((*z as usize) % pts.len());
+        let own = (*z as usize) % pts.len();
+        let zi = if reuse {
+            if let Some(prev) = label_point.get(l) {
+                reused |= *prev != own;
+            }
+            label_point.insert(*l, own);
+            own
+        } else {
+            *label_point.entry(*l).or_insert(own)
+        };
         qs.insert((format!("p{}", (*p as usize) % polys.len()), (format!("q{l}"), pts[zi])));
     }
+    ctx.label_if(reused, "point_label_reused_for_two_points");
     let ev = match crate::util::guard_plain(|| evaluate_query_set(polys.iter(), &qs)) {
         crate::util::Out::Ok(e) => e,
         o => return ctx.fail(sig(P, "evaluate_query_set", "call", "abort"), o.describe_nodebug()),
